@@ -527,10 +527,29 @@ func (r *Reconciler) reconcileCommit(ctx context.Context, proposal *configapi.Pr
 		}
 		return controller.Result{}, nil
 	case configapi.ProposalCommitPhase_COMMITTED:
-		if proposal.Status.NextIndex != 0 {
+		configID := configuration.NewID(proposal.TargetID, proposal.TargetType, proposal.TargetVersion)
+		config, err := r.configurations.Get(ctx, configID)
+		if err != nil {
+			if !errors.IsNotFound(err) {
+				log.Errorf("Failed reconciling Transaction %d Proposal to target '%s'", proposal.TransactionIndex, proposal.TargetID, err)
+				return controller.Result{}, err
+			}
+			return controller.Result{}, nil
+		}
+
+		// Wake the next proposal as long as it may still be waiting for this commit.
+		if proposal.Status.NextIndex != 0 && config.Status.Committed.Index <= proposal.TransactionIndex {
 			return controller.Result{
 				Requeue: controller.NewID(proposalstore.NewID(proposal.TargetID, proposal.Status.NextIndex)),
 			}, nil
+		}
+
+		// Nothing waits for this commit any more. This proposal is committed but not being applied yet: its
+		// transaction may be waiting for a SERIALIZABLE predecessor to be applied. When it is examined because the
+		// configuration of the target changed (the target connected), the proposal that has to be applied first
+		// must be examined too, as the apply phase does for its predecessor.
+		if proposal.Status.PrevIndex != 0 && config.Status.Applied.Index < proposal.Status.PrevIndex {
+			return controller.Result{Requeue: controller.NewID(proposalstore.NewID(proposal.TargetID, proposal.Status.PrevIndex))}, nil
 		}
 		return controller.Result{}, nil
 	default:
